@@ -11,7 +11,7 @@ RULE = ("every list of the stated spaces (every interleaving of lengths) is exec
         "{(i,j,h): i!=j, equal length, h = mismatches <= k}; non-trivial = expected set non-empty")
 ASSUMPTIONS = ["alphabet restricted to amino-acid letters (kdtree/hash_based only accept those)",
                "hash_based Hamming ball over 20 letters: k=3 only in the thorough tier on Lists(V,2)"]
-REQUIRED_CLASSES = {"all": ["mixed-lengths", "lengths-not-sorted", "indel-reachable-not-hamming", "duplicate-at-distance-0", "long-strings>=127"]}
+REQUIRED_CLASSES = {"all": ["mixed-lengths", "lengths-not-sorted", "indel-reachable-not-hamming", "duplicate-at-distance-0", "long-strings>=127", "large-single-length-bucket"]}
 MIN_OUTCOMES = 10
 
 V = E.universe("AC", 3, minlen=1)   # 14 strings of length 1..3
@@ -42,6 +42,8 @@ def spaces(tier):
     def gen_long():
         for n in (127, 128, 255, 256, 257, 300):
             yield ("long", n)
+        for N in (1001,) if q else (1001, 10001, 100003):
+            yield ("samelen", N)
 
     return [
         Space("long-string-boundary-family", gen_long, "equal-length neighbours and near-misses of length 127..300 mixed with short strings: x^n, x^(n-1)y, yx^(n-1), x^(n-2)yy, x^(n+1), x^(n-1); all engines, k in 1..2 (hash_based k=1)", per_case=True),
@@ -139,6 +141,15 @@ def check_case(case, acc):
             expected = neighbors_within(seqs, k, dist="hamming")
             for eng in ("nearest_neighbor", "symdel", "symdel2", "kdtree") + (("hash_based",) if k == 1 else ()):
                 compare(acc, case, eng, seqs, k, run(acc, eng, seqs, k), expected, True)
+    elif kind == "samelen":
+        # many sequences of one and the same length (one Hamming bucket): clonal family at the ends and next to round positions
+        N = case[1]
+        acc.cls("large-single-length-bucket")
+        seqs, pos = E.size_family(N, marks=(256, 1000, 1024, 10000, 65536, 100000))
+        seqs = [s if len(s) == 13 else (s + "WWW") for s in seqs]          # fillers padded to the family's length
+        expected = neighbors_within(seqs, 1, dist="hamming")
+        for eng in ("kdtree", "symdel"):
+            compare(acc, case, eng, seqs, 1, run(acc, eng, seqs, 1), expected, False)
     elif kind == "uni":
         _, alpha, L, order, k, eng = case
         seqs = order_universe(E.universe(alpha, L), order)
